@@ -400,7 +400,7 @@ def l1_units(prop_keys, tier, assume=None, variant_list=('mixed',), pairs=True):
                                'durations in (0,48]), other months concrete (%s)' % (n, m, var), stubs=STUBS[:2], max_seconds=600))
     pair_h = ([24] if tier == 'quick' else [13, 24, 36]) if pairs else []
     for n in pair_h:
-        for m in range(1, 13):
+        for m in (range(1, 13) if tier == 'thorough' else (12, 6)):
             m2 = m % 12 + 1
             if max(m, m2) > n:
                 continue
@@ -609,14 +609,14 @@ def scenarios(tier, seed):
     import random
     rnd = random.Random(seed)
     scs = []
-    months = [1, 2, 7, 12] if tier == 'quick' else list(range(1, 13))
+    months = [1, 2, 12] if tier == 'quick' else list(range(1, 13))
     for m in months:
         last = DIM[m] - 1
-        combos = [(0, 0), (0, 5), (5, 0), (last, last), (3, last), (0, None), (None, 0), (4, None), (None, last)]
+        combos = [(0, 0), (0, 5), (5, 0), (last, last), (0, None), (None, 0)]
         if tier == 'thorough':
-            combos += [(1, 0), (0, 1), (last, 0), (None, 6), (rnd.randrange(DIM[m]), rnd.randrange(DIM[m]))]
+            combos += [(3, last), (4, None), (None, last), (1, 0), (0, 1), (last, 0), (None, 6), (rnd.randrange(DIM[m]), rnd.randrange(DIM[m]))]
         for dayc, dayh in combos:
-            for base in (('zero', 'mixed') if tier == 'quick' else ('zero', 'mixed', 'heat', 'cool')):
+            for base in ((('zero', 'mixed') if (dayc, dayh) in ((0, 0), (0, None), (None, 0)) else ('zero',)) if tier == 'quick' else ('zero', 'mixed', 'heat', 'cool')):
                 prevs = ('none',) if base != 'zero' and tier == 'quick' else ('none', 'cool', 'heat')
                 for prev in prevs:
                     if dayc is None and dayh is None:
